@@ -474,7 +474,18 @@ BOUNDARY_OPEN = {
 }
 
 
-def t4(run, T):
+def thorough(run):
+    """larger outline family, and outlines with a stub attached to the middle of each side (the statement's
+    outlines are not endorsed as rectangles because something is attached to them)"""
+    try:
+        T = Tables(run)
+    except TableError as ex:
+        run.missing("C14.T4", "character tables (%s)" % ex)
+        return
+    t4(run, T, widths=range(1, 9), heights=range(0, 7), stubs=True, rule="C14.T4+")
+
+
+def t4(run, T, widths=range(1, 5), heights=range(0, 4), stubs=False, rule="C14.T4"):
     """T4 outlines are continuous (model evaluation).  A cell's fragments depend on its eight neighbours only, so the
     neighbourhoods that occur in rounded outlines of *all* sizes are exhausted by widths 1..4 x side rows 0..3.  For
     every corner style the table is evaluated cell by cell on such outlines; every cell of the outline must yield a
@@ -488,14 +499,29 @@ def t4(run, T):
             return list(T.unicode[ch]["frags"])
         return []
 
-    def outline(tl, tr, bl, br, hz, vt, w, h):
-        rows = [" " + tl + hz * w + tr + " "]
-        rows += [" " + vt + " " * w + vt + " "] * h
-        rows += [" " + bl + hz * w + br + " "]
+    def outline(tl, tr, bl, br, hz, vt, w, h, stub=None):
+        rows = ["  " + tl + hz * w + tr + "  "]
+        rows += ["  " + vt + " " * w + vt + "  "] * h
+        rows += ["  " + bl + hz * w + br + "  "]
         blank = " " * len(rows[0])
-        return [blank] + rows + [blank]
+        grid = [list(r) for r in [blank, blank] + rows + [blank, blank]]
+        cell = None
+        if stub == "left" and h >= 1:
+            cell = (1, 2 + 1 + (h - 1) // 2, hz)
+        elif stub == "right" and h >= 1:
+            cell = (2 + w + 2, 2 + 1 + (h - 1) // 2, hz)
+        elif stub == "top" and w >= 3:
+            cell = (2 + 1 + (w - 1) // 2, 1, vt)
+        elif stub == "bottom" and w >= 3:
+            cell = (2 + 1 + (w - 1) // 2, 2 + h + 2, vt)
+        elif stub:
+            return None, None
+        if cell:
+            grid[cell[1]][cell[0]] = cell[2]
+        return ["".join(r) for r in grid], (cell[0], cell[1]) if cell else None
 
-    def evaluate(grid):
+    def evaluate(grid_stub):
+        grid, stub_cell = grid_stub
         H, W = len(grid), len(grid[0])
         frs, text = [], []
         for y in range(H):
@@ -510,15 +536,17 @@ def t4(run, T):
                     c = grid[yy][xx] if 0 <= yy < H and 0 <= xx < W else None
                     nbs[d] = None if c in (None, " ") else c
                 got = frags_of(ch, nbs)
-                if not got:
-                    text.append((x - 1, y - 1, ch))
+                if not got and (x, y) != stub_cell:
+                    text.append((x - 2, y - 2, ch))
                 for fr in got:
                     if fr[0] in ("line", "arc"):
                         a = ("pt", fr[1][1] + x, fr[1][2] + 2 * y)
                         b = ("pt", fr[2][1] + x, fr[2][2] + 2 * y)
-                        frs.append((fr[0], a, b, (x - 1, y - 1, ch)))
+                        frs.append((fr[0], a, b, (x - 2, y - 2, ch), (x, y) == stub_cell))
         dang = []
         for i, f in enumerate(frs):
+            if f[4]:
+                continue  # the free end of the attached stub is loose by construction
             for p in (f[1], f[2]):
                 if not any(i != j and (p == g[1] or p == g[2] or (g[0] == "line" and on_segment(g[1], g[2], p))) for j, g in enumerate(frs)):
                     dang.append((p, f[3]))
@@ -530,40 +558,46 @@ def t4(run, T):
     n = 0
     for tl, tr, bl, br, hz, vt in styles:
         if any(c not in T.ascii and c not in T.unicode for c in (tl, tr, bl, br, hz, vt)):
-            run.missing("C14.T4", "table entry for one of %r" % ((tl, tr, bl, br, hz, vt),))
+            run.missing(rule, "table entry for one of %r" % ((tl, tr, bl, br, hz, vt),))
             continue
         style = "%s%s/%s%s" % (tl, tr, bl, br)
         bad_in, bad_boundary = None, None
-        for w_ in range(1, 5):
-            for h in range(0, 4):
-                n += 1
-                text, dang = evaluate(outline(tl, tr, bl, br, hz, vt, w_, h))
-                if text or dang:
-                    if h >= 1 and bad_in is None:
-                        bad_in = (w_, h, text, dang)
-                    if h == 0 and bad_boundary is None:
-                        bad_boundary = (w_, h, text, dang)
+        for w_ in widths:
+            for h in heights:
+                for stub in ([None, "left", "right", "top", "bottom"] if stubs else [None]):
+                    gs = outline(tl, tr, bl, br, hz, vt, w_, h, stub)
+                    if gs[0] is None:
+                        continue
+                    n += 1
+                    text, dang = evaluate(gs)
+                    if text or dang:
+                        if h >= 1 and bad_in is None:
+                            bad_in = (w_, h, text, dang, stub)
+                        if h == 0 and bad_boundary is None:
+                            bad_boundary = (w_, h, text, dang, stub)
 
         def describe(b):
-            w_, h, text, dang = b
-            return "outline %d wide with %d side row(s): %s%s" % (
-                w_, h, ("cell(s) %s fall back to text; " % ", ".join("%r at (%d,%d)" % (c, x, y) for x, y, c in text)) if text else "",
-                ("loose end(s) at %s" % ", ".join("(%s,%s) of %r" % (float(p[1]) - 1, float(p[2]) - 2, c[2]) for p, c in dang[:3])) if dang else "")
+            w_, h, text, dang, stub = b
+            return "outline %d wide with %d side row(s)%s: %s%s" % (
+                w_, h, (" and a stub attached to its %s side" % stub) if stub else "", ("cell(s) %s fall back to text; " % ", ".join("%r at (%d,%d)" % (c, x, y) for x, y, c in text)) if text else "",
+                ("loose end(s) at %s" % ", ".join("(%s,%s) of %r" % (float(p[1]) - 2, float(p[2]) - 4, c[2]) for p, c in dang[:3])) if dang else "")
         if bad_in:
-            run.bad("C14.T4", "outline-open/%s" % style, T.ascii_file, "rounded outline with corners %s is not continuous: %s" % (style, describe(bad_in)))
+            run.bad(rule, "outline-open/%s" % style, T.ascii_file, "rounded outline with corners %s is not continuous: %s" % (style, describe(bad_in)))
         else:
-            run.ok("C14.T4", "rounded outlines with corners %s are closed curves (widths 1..4 x 1..3 side rows; every cell draws, every end meets another fragment)" % style, T.ascii_file)
+            run.ok(rule, "rounded outlines with corners %s are closed curves (widths %d..%d x %d..%d side rows%s; every cell draws, every end meets another fragment)" % (
+                style, min(widths), max(widths), max(1, min(heights)), max(heights), ", with and without a stub on each side" if stubs else ""), T.ascii_file)
         if bad_boundary:
             if (tl, bl) in BOUNDARY_OPEN:
-                run.ok("C14.T4", "smallest outline (no side rows) with corners %s is open on the pinned tree; outside the stated size range, recorded" % style,
+                run.ok(rule, "smallest outline (no side rows) with corners %s is open on the pinned tree; outside the stated size range, recorded" % style,
                        T.ascii_file, BOUNDARY_OPEN[(tl, bl)], nontrivial=False)
             else:
-                run.bad("C14.T4", "outline-open-smallest/%s" % style, T.ascii_file,
+                run.bad(rule, "outline-open-smallest/%s" % style, T.ascii_file,
                         "the smallest rounded outline with corners %s (corners directly above each other) was continuous and is not any more: %s" % (style, describe(bad_boundary)))
         elif (tl, bl) in BOUNDARY_OPEN:
             run.note("C14.T4: the smallest outline with corners %s is closed now; its BOUNDARY_OPEN entry is obsolete" % style)
     run.record("outline_grids_evaluated", n)
-    run.floor("C14.T4", "outline_grids", n, 64)
+    run.floor(rule, "outline_grids", n, 64)
+    run.record("outline_grids_evaluated" + ("_thorough" if stubs else ""), n)
 
 
 run_flow = run
